@@ -987,7 +987,8 @@ class ParserField:
         type = self.output_type
         if not type:
             return value
-        trans = context.transformer
+        # like parse_value: errors inside the value belong to this item, not to the outer context
+        trans = context.enter(self.name).transformer
         try:
             return trans(value, type)  # noqa
         except Exception as e:
